@@ -2492,8 +2492,12 @@ class Evaluator:
                     if inc and not stores_i and not jumps and isinstance(cur, Poly) and cur.is_zero():
                         nv = s.ev(r, env, mod, depth)
                         at = nv.as_atom() if isinstance(nv, Poly) else None
-                        if isinstance(at, tuple) and len(at) == 2 and at[0] == 'len':
-                            xs = term_from_key(at[1])
+                        xs = None
+                        if isinstance(at, tuple) and len(at) == 2 and at[0] == 'len': xs = term_from_key(at[1])
+                        elif isinstance(r, ast.Call) and isinstance(r.func, ast.Name) and r.func.id == 'len' and len(r.args) == 1 and not r.keywords:
+                            cv_ = s.ev(r.args[0], env, mod, depth)          # the length of a concrete sequence: the loop visits its items
+                            if isinstance(cv_, (list, tuple)) and len(cv_) <= 24: xs = list(cv_)
+                        if xs is not None:
                             # the sequence must not be resized in the body
                             grows = any(isinstance(n, ast.Call) and isinstance(n.func, ast.Attribute) and n.func.attr in ('append', 'pop', 'remove', 'insert', 'extend', 'clear')
                                         and same(s.ev(n.func.value, env, mod, depth), xs) for b in body for n in ast.walk(b))
